@@ -3,36 +3,50 @@ C07 — solutions are equivariant under the hexagonal symmetries.
 
 Generic part: any explicit cell update whose coefficients depend only on *local table data*
 (own type, the types of the neighbours, the donor cell) commutes with every automorphism of
-those tables.  The interior coolant update of DASSH has this form (Props/C04: all cells of a
-neighbour-type class share one traced update).  Table part (generated, `Dassh.Gen.C07All`): the
-six rotations and the mirror, derived from the published centroid coordinates, are automorphisms
-of the tables the running code builds — kernel-decided for every dumped ring count.
+those tables (`IsAuto`), for one step and for whole sweeps; automorphisms compose, so the two
+generators (rotation by 60°, mirror) give all twelve symmetries.  The mirror carries the
+clockwise donor map to the counter-clockwise one, so the statement has two donor maps.
+The interior coolant update of DASSH has this local form (Props/C04: all cells of a
+neighbour-type class share one traced update).
+
+Table part (generated, `Dassh.Gen.C07All`): the rotation and the mirror, derived from the
+published centroid coordinates, are automorphisms of the tables the running code builds —
+kernel-decided for every dumped ring count.  `isAuto_of_certs` turns the Boolean certificates
+into `IsAuto`, and `c07_n2_*` instantiate everything for the real 7-pin tables.
 -/
 import Dassh.Gen.C07All
+import Dassh.Lemmas.Equivariance
 import Mathlib.Algebra.Order.Field.Basic
 import Mathlib.Algebra.BigOperators.Group.List.Basic
 import Mathlib.Data.List.Perm.Basic
+import Mathlib.Data.List.Perm.Subperm
 import Mathlib.Tactic.Ring
 
 namespace Dassh.Props.C07
+open Dassh.Equivariance Dassh.Table
 
 variable {K : Type} [Field K]
 
-/-- a local explicit update: exchange with the listed neighbours with a weight depending on the
-two cell types, a donor (swirl) term, and a source term weighted by the own type -/
-def localStep (ty : Nat → Nat) (nb : Nat → List Nat) (donor : Nat → Nat) (w : Nat → Nat → K) (sw b : Nat → K)
-    (T src : Nat → K) (i : Nat) : K :=
-  T i + ((nb i).map fun j => w (ty i) (ty j) * (T j - T i)).sum + sw (ty i) * (T (donor i) - T i) + b (ty i) * src i
+theorem c07_auto_id (n : Nat) (ty : Nat → Nat) (nb : Nat → List Nat) (d : Nat → Nat) : IsAuto n ty nb d d id :=
+  ⟨fun _ h => h, fun _ _ => rfl, fun i _ => by simp, fun _ _ => rfl⟩
 
-/-- **Equivariance.**  If `π` preserves types, maps the neighbour list of `i` to a permutation of the
-neighbour list of `π i`, and commutes with the donor map, then updating the permuted fields gives the
-permuted update: `step (T∘π) (src∘π) = (step T src)∘π`.  Holds for every field, source, weights. -/
-theorem c07_step_equivariant (ty : Nat → Nat) (nb : Nat → List Nat) (donor : Nat → Nat)
-    (w : Nat → Nat → K) (sw b : Nat → K) (π : Nat → Nat) (T src : Nat → K)
-    (hty : ∀ i, ty (π i) = ty i)
-    (hnb : ∀ i, ((nb i).map π).Perm (nb (π i)))
-    (hdon : ∀ i, donor (π i) = π (donor i)) (i : Nat) :
-    localStep ty nb donor w sw b (T ∘ π) (src ∘ π) i = localStep ty nb donor w sw b T src (π i) := by
+/-- automorphisms compose (donor maps chain: `dA → dB → dC`) -/
+theorem c07_auto_comp {n : Nat} {ty : Nat → Nat} {nb : Nat → List Nat} {dA dB dC : Nat → Nat} {π ρ : Nat → Nat}
+    (hπ : IsAuto n ty nb dA dB π) (hρ : IsAuto n ty nb dB dC ρ) : IsAuto n ty nb dA dC (ρ ∘ π) where
+  maps i hi := hρ.maps _ (hπ.maps i hi)
+  ty i hi := by simp only [Function.comp]; rw [hρ.ty _ (hπ.maps i hi), hπ.ty i hi]
+  nb i hi := by
+    have h1 : (nb i).map (ρ ∘ π) = ((nb i).map π).map ρ := by rw [List.map_map]
+    rw [h1]
+    exact ((hπ.nb i hi).map ρ).trans (hρ.nb _ (hπ.maps i hi))
+  don i hi := by simp only [Function.comp]; rw [hρ.don _ (hπ.maps i hi), hπ.don i hi]
+
+/-- **Equivariance of one step.**  Updating the permuted fields with donor map `dA` gives the permuted update
+with donor map `dB`: `step_A (T∘π) (src∘π) i = step_B T src (π i)` for every cell, field, source, weights. -/
+theorem c07_step_equivariant {n : Nat} {ty : Nat → Nat} {nb : Nat → List Nat} {dA dB : Nat → Nat} {π : Nat → Nat}
+    (hcl : Closed n nb dA) (hπ : IsAuto n ty nb dA dB π)
+    (w : Nat → Nat → K) (sw b : Nat → K) (T src : Nat → K) (i : Nat) (hi : i < n) :
+    localStep ty nb dA w sw b (T ∘ π) (src ∘ π) i = localStep ty nb dB w sw b T src (π i) := by
   unfold localStep
   simp only [Function.comp]
   have hsum : ((nb i).map fun j => w (ty i) (ty j) * (T (π j) - T (π i))).sum
@@ -41,30 +55,73 @@ theorem c07_step_equivariant (ty : Nat → Nat) (nb : Nat → List Nat) (donor :
         = (((nb i).map π).map fun j' => w (ty (π i)) (ty j') * (T j' - T (π i))) := by
       rw [List.map_map]
       apply List.map_congr_left
-      intro j _
-      simp only [Function.comp, hty]
+      intro j hj
+      simp only [Function.comp, hπ.ty i hi, hπ.ty j (hcl.nb i hi j hj)]
     rw [h1]
-    exact ((hnb i).map _).sum_eq
-  rw [hsum, hty, hdon]
+    exact ((hπ.nb i hi).map _).sum_eq
+  rw [hsum, hπ.ty i hi, hπ.don i hi]
 
-/-- equivariance carries over to any number of steps (a sweep) with step-dependent sources -/
-theorem c07_sweep_equivariant (ty : Nat → Nat) (nb : Nat → List Nat) (donor : Nat → Nat)
-    (w : Nat → Nat → K) (sw b : Nat → K) (π : Nat → Nat)
-    (hty : ∀ i, ty (π i) = ty i) (hnb : ∀ i, ((nb i).map π).Perm (nb (π i)))
-    (hdon : ∀ i, donor (π i) = π (donor i)) (srcs : List (Nat → K)) (T : Nat → K) :
-    (srcs.map (· ∘ π)).foldl (fun t s => localStep ty nb donor w sw b t s) (T ∘ π)
-      = (srcs.foldl (fun t s => localStep ty nb donor w sw b t s) T) ∘ π := by
-  induction srcs generalizing T with
-  | nil => rfl
+/-- the update of a cell `< n` only reads cells `< n` -/
+theorem localStep_congr {n : Nat} {ty : Nat → Nat} {nb : Nat → List Nat} {d : Nat → Nat} (hcl : Closed n nb d)
+    (w : Nat → Nat → K) (sw b : Nat → K) {T T' src src' : Nat → K}
+    (hT : ∀ i, i < n → T i = T' i) (hs : ∀ i, i < n → src i = src' i) (i : Nat) (hi : i < n) :
+    localStep ty nb d w sw b T src i = localStep ty nb d w sw b T' src' i := by
+  unfold localStep
+  have hl : ((nb i).map fun j => w (ty i) (ty j) * (T j - T i))
+      = ((nb i).map fun j => w (ty i) (ty j) * (T' j - T' i)) := by
+    apply List.map_congr_left
+    intro j hj
+    rw [hT j (hcl.nb i hi j hj), hT i hi]
+  rw [hl, hT i hi, hT _ (hcl.don i hi), hs i hi]
+
+/-- **Equivariance of a whole sweep** (step-dependent sources): marching the permuted problem with donor map `dA`
+gives, cell by cell, the permuted result of marching the original problem with donor map `dB`. -/
+theorem c07_sweep_equivariant {n : Nat} {ty : Nat → Nat} {nb : Nat → List Nat} {dA dB : Nat → Nat} {π : Nat → Nat}
+    (hcl : Closed n nb dA) (hπ : IsAuto n ty nb dA dB π)
+    (w : Nat → Nat → K) (sw b : Nat → K) (srcs : List (Nat → K)) (T T' : Nat → K)
+    (h0 : ∀ i, i < n → T' i = T (π i)) :
+    ∀ i, i < n →
+      ((srcs.map (· ∘ π)).foldl (fun t s => localStep ty nb dA w sw b t s) T') i
+        = (srcs.foldl (fun t s => localStep ty nb dB w sw b t s) T) (π i) := by
+  induction srcs generalizing T T' with
+  | nil => intro i hi; simpa using h0 i hi
   | cons s t ih =>
     simp only [List.map_cons, List.foldl_cons]
-    have : localStep ty nb donor w sw b (T ∘ π) (s ∘ π) = (localStep ty nb donor w sw b T s) ∘ π := by
-      funext i
-      exact c07_step_equivariant ty nb donor w sw b π T s hty hnb hdon i
-    rw [this]
-    exact ih _
+    apply ih
+    intro i hi
+    rw [localStep_congr hcl w sw b (T' := T ∘ π) (src' := s ∘ π) h0 (fun _ _ => rfl) i hi]
+    exact c07_step_equivariant hcl hπ w sw b T s i hi
 
-/-- the table certificates of this run (every dumped ring count, six rotations and the mirror) -/
+/-- the table certificates of this run (every dumped ring count, rotation and mirror) -/
 theorem c07_tables : Dassh.Gen.C07All.allCerts.all (· = true) = true := Dassh.Gen.C07All.all_ok
+
+/-- for every dumped ring count: rotation and mirror are automorphisms (in the sense of the theorems above) of the tables
+DASSH builds, and the tables are closed - generated instances of `isAuto_of_certs` / `closed_of_certs` -/
+theorem c07_all_ring_counts : Dassh.Gen.C07All.AllAutos := Dassh.Gen.C07All.all_autos
+
+/-! ### the real 7-pin tables (`n_ring = 2`) written out: rotation, and a composed reflection -/
+
+section n2
+open Dassh.Gen.C08T2 Dassh.Gen.C07T2
+
+/-- for the subchannel tables DASSH builds for 7 pins: rotating the sources and the inlet field by 60° rotates the result
+of any number of steps (clockwise wire), for all weights / sources / fields -/
+theorem c07_n2_rotation (w : Nat → Nat → K) (sw b : Nat → K) (srcs : List (Nat → K)) (T : Nat → K) :
+    ∀ i, i < ncool →
+      ((srcs.map (· ∘ permOf pi_rot1 12)).foldl (fun t s => localStep tyf nb (donorN nint donorCW) w sw b t s) (T ∘ permOf pi_rot1 12)) i
+        = (srcs.foldl (fun t s => localStep tyf nb (donorN nint donorCW) w sw b t s) T) (permOf pi_rot1 12 i) :=
+  c07_sweep_equivariant closed_cw rot_auto_cw w sw b srcs T _ (fun _ _ => rfl)
+
+/-- mirror after two rotations: a reflection that is not a generator, obtained by composition; the clockwise problem
+is carried to the counter-clockwise one -/
+theorem c07_n2_composed (w : Nat → Nat → K) (sw b : Nat → K) (srcs : List (Nat → K)) (T : Nat → K) :
+    let g := permOf pi_mir 12 ∘ (permOf pi_rot1 12 ∘ permOf pi_rot1 12)
+    ∀ i, i < ncool →
+      ((srcs.map (· ∘ g)).foldl (fun t s => localStep tyf nb (donorN nint donorCW) w sw b t s) (T ∘ g)) i
+        = (srcs.foldl (fun t s => localStep tyf nb (donorN nint donorCCW) w sw b t s) T) (g i) := by
+  intro g
+  exact c07_sweep_equivariant closed_cw (c07_auto_comp (c07_auto_comp rot_auto_cw rot_auto_cw) mir_auto_cw) w sw b srcs T _ (fun _ _ => rfl)
+
+end n2
 
 end Dassh.Props.C07
